@@ -421,4 +421,91 @@ example : Under { urlSite with netloc := "me@lemonde.fr".toList }
         { urlSite with netloc := "me@lemonde.fr".toList, path := "/x".toList })) := by
   decide
 
+
+/-! ## string level: the parser inside the model
+
+The same laws for URL **strings**: `urlParts u` is `urlsplit(ensure_protocol(u))` computed by the
+model of CPython's parser (`Py/UrlSplit.lean`, compared with CPython on every URL of the
+universe by the stream), `lruStemsUrl` is `lru_stems` as a function of the string
+(`Model/LruUrl.lean`).  "`v` lies under `u`" is `Under` on the components the parser returns;
+"no `|`" is a hypothesis on the strings (`C12.noBar_of_url`). -/
+
+theorem stemsUrl_of_parts (sa : Bool) {u : Str} {pu : Parts} (hu : urlParts u = some pu) :
+    lruStemsUrl sp sa u = some (lruStems sp sa pu) := by
+  simp [lruStemsUrl, hu]
+
+/-- **forward, `suffix_aware = False`, on URL strings** (full): if the parser splits `u`, `v`
+(no `|`) into components in the grammar with `v` under `u`, then `lru_stems(u)` (empty path
+stems aside) is a prefix of `lru_stems(v)` and the serialised LRU a string prefix -/
+theorem lru_prefix_of_under_string (u v : Str) (hbu : '|' ∉ u) (hbv : '|' ∉ v) (pu pv : Parts)
+    (hu : urlParts u = some pu) (hv : urlParts v = some pv)
+    (hwu : wfNetloc pu.netloc = true) (hwv : wfNetloc pv.netloc = true)
+    (hnu : noUserinfo pu.netloc = true) (hnames : NamesOrEqual pu pv) (h : Under pu pv) :
+    ∃ su sv, lruStemsUrl sp false u = some su ∧ lruStemsUrl sp false v = some sv ∧
+      cleanTrailingPath su <+: cleanTrailingPath sv ∧
+      serializeLru (cleanTrailingPath su) <+: serializeLru (cleanTrailingPath sv) :=
+  ⟨_, _, stemsUrl_of_parts sp false hu, stemsUrl_of_parts sp false hv,
+    stems_prefix_of_under sp pu pv hwu hwv hnu hnames h,
+    lru_prefix_of_under sp pu pv hwu hwv hnu hnames (C12.noBar_of_url hu hbu)
+      (C12.noBar_of_url hv hbv) h⟩
+
+/-- **forward, `suffix_aware = True`, on URL strings** (partial: same public-suffix split) -/
+theorem lru_prefix_of_under_string_partial (u v : Str) (hbu : '|' ∉ u) (hbv : '|' ∉ v)
+    (pu pv : Parts) (hu : urlParts u = some pu) (hv : urlParts v = some pv)
+    (hwu : wfNetloc pu.netloc = true) (hwv : wfNetloc pv.netloc = true)
+    (hnu : noUserinfo pu.netloc = true) (hnames : NamesOrEqual pu pv)
+    (hsu : SplitLaw sp pu.netloc) (hsv : SplitLaw sp pv.netloc)
+    (hsame : SameSuffixSplit sp pu.netloc pv.netloc) (h : Under pu pv) :
+    ∃ su sv, lruStemsUrl sp true u = some su ∧ lruStemsUrl sp true v = some sv ∧
+      cleanTrailingPath su <+: cleanTrailingPath sv ∧
+      serializeLru (cleanTrailingPath su) <+: serializeLru (cleanTrailingPath sv) :=
+  ⟨_, _, stemsUrl_of_parts sp true hu, stemsUrl_of_parts sp true hv,
+    stems_prefix_of_under_partial sp pu pv hwu hwv hnu hnames hsu hsv hsame h,
+    lru_prefix_of_under_partial sp pu pv hwu hwv hnu hnames hsu hsv hsame
+      (C12.noBar_of_url hu hbu) (C12.noBar_of_url hv hbv) h⟩
+
+/-- **converse on URL strings**, both modes (full; suffix-aware: hosts compared lower-cased,
+given C08's clause for both): if `lru_stems(u)` (empty path stems aside) is a prefix of
+`lru_stems(v)`, then `v` lies under `u` -/
+theorem under_of_stems_prefix_string (sa : Bool) (u v : Str) (su sv : List Str)
+    (hsu : lruStemsUrl sp sa u = some su) (hsv : lruStemsUrl sp sa v = some sv)
+    (hpre : cleanTrailingPath su <+: cleanTrailingPath sv) :
+    ∃ pu pv, urlParts u = some pu ∧ urlParts v = some pv ∧
+      (wfNetloc pu.netloc = true → wfNetloc pv.netloc = true → noUserinfo pu.netloc = true →
+        (sa = true → SplitLaw sp pu.netloc ∧ SplitLaw sp pv.netloc) →
+        UnderBy (if sa then lower else id) pu pv) := by
+  unfold lruStemsUrl at hsu hsv
+  cases hu : urlParts u with
+  | none => rw [hu] at hsu; cases hsu
+  | some pu =>
+    cases hv : urlParts v with
+    | none => rw [hv] at hsv; cases hsv
+    | some pv =>
+      rw [hu] at hsu; rw [hv] at hsv
+      simp only [Option.map_some, Option.some.injEq] at hsu hsv
+      subst hsu; subst hsv
+      refine ⟨pu, pv, rfl, rfl, ?_⟩
+      intro hwu hwv hnu hlaw
+      cases sa with
+      | false => exact under_of_stems_prefix sp pu pv hwu hwv hnu hpre
+      | true =>
+        exact under_of_stems_prefix_sa sp pu pv hwu hwv hnu (hlaw rfl).1 (hlaw rfl).2 hpre
+
+/-- stem-list prefix ⇔ string prefix of `url_to_lru`, for the LRUs of two `|`-free URL strings
+(`suffix_aware = False`; no grammar restriction) -/
+theorem url_to_lru_prefix_iff (u v : Str) (hbu : '|' ∉ u) (hbv : '|' ∉ v) (su sv : List Str)
+    (hsu : lruStemsUrl sp false u = some su) (hsv : lruStemsUrl sp false v = some sv) :
+    ∃ lu lv, urlToLru sp false u = some lu ∧ urlToLru sp false v = some lv ∧
+      (lu <+: lv ↔ su <+: sv) := by
+  obtain ⟨ou, eu, _⟩ := C12.serialization_string sp false u hbu (fun h => by cases h) su hsu
+  obtain ⟨ov, ev, _⟩ := C12.serialization_string sp false v hbv (fun h => by cases h) sv hsv
+  exact ⟨_, _, eu, ev, serialize_prefix_iff su sv ou.ne ov.ne ou.nobar ov.nobar⟩
+
+/-- non-vacuity on strings: scheme-less `lemonde.fr:8080/` vs a page below it -/
+example : ∃ pu pv, urlParts "lemonde.fr:8080/".toList = some pu ∧
+    urlParts "HTTP://me@www.lemonde.fr:8080/a//b?q=1#f".toList = some pv ∧ Under pu pv ∧
+    wfNetloc pu.netloc = true ∧ wfNetloc pv.netloc = true ∧ noUserinfo pu.netloc = true :=
+  ⟨urlSite, urlPage, by decide +kernel, by decide +kernel, by decide, by decide, by decide,
+    by decide⟩
+
 end Ural.Props.C13
